@@ -60,6 +60,53 @@ PROPS["C15"] = {
     ],
 }
 
+PROPS["C06"] = {
+    "features": ["c06"],
+    "modules": ["c06_select::"],
+    "functions": [
+        "<ec_core::operator::selector::{best::Best,worst::Worst,random::Random} as Selector<P>>::select for P = [i32;N], Vec<EcIndividual<u8,TestResults<Score<i64>>>>",
+        "<tournament::Tournament as Selector<[i32;N]>>::select (rand choose_multiple), Tournament::{new,binary}",
+        "<lexicase::Lexicase as Selector<Vec<EcIndividual<..>>>>::select for at most one configured case",
+        "Weighted / WeightedPair chains and DynWeighted over real selectors; Select<&S>; &dyn DynSelector, Box<dyn DynSelector + Send + Sync>",
+    ],
+    "bounds": {
+        "quick": "every random stream; populations [i32;N] N=0..=4 and Vec<EcIndividual> N=0..=3 with symbolic values (ties and duplicates included); "
+                 "tournament (n,k) in 11 concrete pairs with k <= n+1 <= 5; lexicase with 0 or 1 configured case over 0..=2 individuals each "
+                 "holding a symbolic number (0..=2) of results; weighted chain Best/Worst/Random with symbolic weights 0..=3 on a 3-element and on "
+                 "an empty population; DynWeighted (Best, Worst, Random) weights 0..=2, streams = 4 symbolic words then all-ones; "
+                 "identity by std::ptr::eq against every element",
+        "thorough": "as quick plus tournament (3,1),(3,4),(4,1),(4,4),(5,2),(5,3) and lexicase (2 individuals,0 cases),(3 individuals,1 case)",
+    },
+    "outside": "lexicase with two or more cases (a case order exists only then; the 2x2 instance exceeds 30 GB, see C08); populations larger than 5; "
+               "population types other than arrays and Vec",
+    "assumptions": ["rand 0.9.0 choose / choose_multiple / choose_weighted / shuffle run unmodified on the symbolic generator"],
+    # lexicase: only rand's calculate_bound_u32 (inside shuffle) needs 13 iterations; everything else 6
+    "unwind_by_harness": [("lexicase", 6)],
+    "unwindset_by_harness": [("lexicase", [("calculate_bound_u32", 13)])],
+}
+
+PROPS["C07"] = {
+    "features": ["c07"],
+    "modules": ["c07_pressure::"],
+    "functions": [
+        "<ec_core::operator::selector::{best::Best,worst::Worst} as Selector<P>>::select for [i32;N] and Vec<EcIndividual<u8,TestResults<{Score,Error}<i64>>>>",
+        "<ec_core::individual::ec::EcIndividual as Ord>::cmp, <TestResults as Ord>::cmp, Error's reversed Ord",
+        "<tournament::Tournament as Selector<[LI;N]>>::select with rand 0.9.0 IndexedRandom::choose_multiple + Iterator::max (LI = harness individual whose Ord logs the ids compared)",
+    ],
+    "bounds": {
+        "quick": "every random stream; Best/Worst maximal/minimal over populations of 1..=4 symbolic values (i32, and individuals with symbolic i64 totals in "
+                 "both polarities, ties included); tournament (n,k) in {(1,1),(2,1),(2,2),(3,1),(3,2),(3,3),(4,2),(4,3)} with symbolic u8 values: the set of "
+                 "individuals compared has exactly k distinct members, the winner is its best, hence beats >= k-1 others, k = n is best selection; "
+                 "a cover per k-subset class that it can be the sampled set; sampled set independent of the values for (3,2),(4,2) on a shared symbolic tape",
+        "thorough": "as quick plus (4,1),(4,4),(5,2),(5,3),(5,4) and independence for (4,3),(3,1)",
+    },
+    "outside": "'every k-subset equally likely' is REDUCED, not decided: the solver shows the repository hands the whole population and k to rand's "
+               "without-replacement sampler and takes the max, and that every k-subset can occur; equal likelihood is rand's documented contract "
+               "(a biased full-support sampler substituted inside rand would not be caught). Populations larger than 5.",
+    "assumptions": ["rand 0.9.0 choose_multiple samples k-subsets uniformly (documented contract, not re-proved)"],
+    "cover_replay_tests": {"tournament": "c07::tournament_subsets_reachable"},
+}
+
 PROPS["C10"] = {
     "features": ["c10"],
     "modules": ["c10_xo::"],
@@ -81,7 +128,7 @@ PROPS["C10"] = {
     "assumptions": [
         "rand 0.9.0 sampling algorithms run unmodified on the symbolic generator",
     ],
-    "cover_replay_tests": {"two_point": "two_point_segments_reachable"},
+    "cover_replay_tests": {"two_point": "c10::two_point_segments_reachable"},
 }
 
 PROPS["C13"] = {
